@@ -7,8 +7,10 @@ EXPLANATION = ('For every impl of Accumulator and AggregateUDFImpl in the worksp
                'retract_batch is overridden (the default returns not_impl_err); groups_accumulator_supported() able to return true => '
                'create_groups_accumulator is overridden; create_sliding_accumulator overridden => every Accumulator type it constructs '
                'supports retraction; and, where both are literal, the number of values written by state() equals 1 + the largest '
-               'constant index merge_batch reads from its `states` argument (the partial->final column agreement). Numeric laws of '
-               'split/merge/retract are not decided.')
+               'constant index merge_batch reads from its `states` argument (the partial->final column agreement). For every impl of '
+               'GroupsAccumulator (18): evaluate(emit_to) and state(emit_to) drain the same per-group fields (every field one of them writes '
+               'and update_batch advances is written by the other), so a partial emit through either leaves the remaining groups aligned. '
+               'Numeric laws of split/merge/retract are not decided.')
 ASSUMPTIONS = ['the default bodies of retract_batch / create_groups_accumulator return not-implemented errors (checked: they are trait defaults)']
 
 ACC = 'datafusion_expr_common::accumulator::Accumulator'
@@ -144,6 +146,36 @@ def check_accumulators(ctx, facts, trait=ACC, rule='retract-flag-override'):
     return bad, n, nret
 
 
+
+GACC = 'datafusion_expr_common::groups_accumulator::GroupsAccumulator'
+
+
+def emit_siblings_agree(ctx, f, trait=GACC, rule='emit-siblings-agree', a='evaluate', b='state', upd='update_batch'):
+    """evaluate(emit_to) and state(emit_to) of a GroupsAccumulator both hand out the first n groups and drop them from every
+    per-group vector; they must drain the same state: every field that one of them writes and that update_batch advances must be
+    written by the other too.  A vector that only one of them drains leaves the remaining groups misaligned after a partial emit."""
+    import C13
+    n = 0
+    for i in f.impls_of(trait):
+        owner = i.get('self_adt')
+        items = dict((x[0], x[1]) for x in i['items'] if x[2])
+        if not owner or a not in items or b not in items:
+            continue
+        n += 1
+        wa = C13.tree_writes(f, items[a], owner)
+        wb = C13.tree_writes(f, items[b], owner)
+        wu = C13.tree_writes(f, items[upd], owner) if upd in items else (wa | wb)
+        ctx.analysed_fns.update((items[a], items[b]))
+        only_a, only_b = sorted((wa - wb) & wu), sorted((wb - wa) & wu)
+        inst = owner.rsplit('::', 1)[-1]
+        if only_a or only_b:
+            rec = f.fn(items[b])
+            ctx.fail(rule, inst, ctx.loc(rec), '%s() drains %s but %s() does not; %s() drains %s but %s() does not: after a partial emit through one of them the per-group '
+                     'vectors no longer line up' % (a, only_a, b, b, only_b, a), key='%s|%s' % (rule, owner))
+        else:
+            ctx.ok(rule, inst, sample={'accumulator': owner, 'per_group_state': sorted(wa & wu)} if n <= 6 else None)
+    return n
+
 def run(ctx):
     f = ctx.facts
     bad, n, nret = check_accumulators(ctx, f)
@@ -186,6 +218,8 @@ def run(ctx):
             else:
                 ctx.ok('sliding-retracts', inst, sample={'impl': inst, 'sliding_accumulators': sorted(built)})
     ctx.floor('groups-flag-override', 'impl AggregateUDFImpl', nu, 38)
+    ng = emit_siblings_agree(ctx, f)
+    ctx.floor('emit-siblings-agree', 'impl GroupsAccumulator with both evaluate and state', ng, 16)
     # selftest
     import common
     st = ctx.st
@@ -193,3 +227,7 @@ def run(ctx):
     probe.known = []
     b, _, _ = check_accumulators(probe, st, trait='dfscan_selftest::aggs::Accumulator', rule='st')
     ctx.selftest('flag/override and arity rules fire on the seeded accumulators', b >= 2)
+    emit_siblings_agree(probe, st, trait='dfscan_selftest::aggs::GAcc', rule='st-emit')
+    keys = [v['key'] for v in probe.viol if v['key'].startswith('st-emit|')]
+    ctx.selftest('emit-siblings rule reports a state() that does not drain what evaluate() drains (AvgBad), accepts AvgGood',
+                 any('AvgBad' in k for k in keys) and not any('AvgGood' in k for k in keys))
